@@ -13,7 +13,7 @@ def both(quick, extra_thorough=()):
 PROPS = {
     'C01': dict(
         title='ISI-profile equals the ISI-distance definition', level='proof',
-        groups=both(['isi_py.P', 'isi_pyx.P', 'lemmas.cover', 'nonempty.B'], ['isi_py.B']),
+        groups=both(['isi_py.P', 'isi_pyx.P', 'lemmas.cover', 'nonempty.P'], ['isi_py.B']),
         technique='inductive VCs (loop invariant + ghost cover indices) generated from the Python AST of the real kernel, discharged by z3/cvc5',
         explanation='inductive proof of isi_distance_python and of the extracted isi_profile_cython against the C01 definition '
                     '(breakpoints = edges + interior spikes, value = |v1-v2|/max(v1,v2,MRTS) of the covering ISIs with the edge rules, '
